@@ -8,7 +8,7 @@ MB = 1 << 20
 META = dict(
     level="model_checking",
     bounds="block size 2^20..2^28 x logical sector {512,4096} enumerated (quick: a subset); request <= N blocks' worth "
-           "of sectors (quick N=1 plus a 3-block window for 1 MiB/4096; thorough N=2); virtual size <= 64 TiB, BAT offset, "
+           "of sectors (N=1; thorough N=2 for four geometries; plus a 3-sector window that crosses block boundaries from any alignment); virtual size <= 64 TiB, BAT offset, "
            "every BAT word and the request (sector, count) symbolic; loops unwound under a decision budget with "
            "unwinding assertion",
     outside=["VHDX.__init__/region and metadata tables (covered by C12/C14)", "log replay (not implemented by the reader)",
@@ -20,6 +20,9 @@ META = dict(
 )
 
 
+SPLIT_DEPTH = 10
+
+
 def tasks(tier):
     out = []
     if tier == "quick":
@@ -27,7 +30,8 @@ def tasks(tier):
     else:
         geos = [(MB << k, ss) for k in range(9) for ss in (512, 4096)]
     for bs, ss in geos:
-        out.append(("read", dict(block_size=bs, sector_size=ss, n_blocks=1 if tier == "quick" else 2)))
+        deep = tier == "thorough" and (bs, ss) in ((MB, 512), (MB, 4096), (32 * MB, 4096), (256 * MB, 512))
+        out.append(("read", dict(block_size=bs, sector_size=ss, n_blocks=2 if deep else 1)))
     # a small-count window that still crosses block boundaries from any alignment
     out.append(("read", dict(block_size=MB, sector_size=4096, max_count=3, n_blocks=1)))
     out.append(("read", dict(block_size=MB, sector_size=4096, n_blocks=1, via="_read")))
